@@ -81,6 +81,8 @@ pub enum Verdict {
     Ok,
     Deadlock,
     Race,
+    /// an access while a conflicting `get()` / `get_mut()` / closure access is still open
+    Overlap,
     Leak(String),
     BranchLimit,
     /// our own PanicHere / stop_at_iter
@@ -97,6 +99,7 @@ impl Verdict {
             Verdict::Ok => "Ok".into(),
             Verdict::Deadlock => "Deadlock".into(),
             Verdict::Race => "Race".into(),
+            Verdict::Overlap => "Overlap".into(),
             Verdict::Leak(k) => format!("Leak({})", k),
             Verdict::BranchLimit => "BranchLimit".into(),
             Verdict::User(t) => format!("User({})", t),
@@ -143,6 +146,9 @@ pub fn classify(msg: &str) -> Verdict {
     }
     if msg.contains("Causality violation") {
         return Verdict::Race;
+    }
+    if msg.starts_with("currently writing to cell") || msg.starts_with("currently reading from cell") {
+        return Verdict::Overlap;
     }
     if msg.starts_with("Arc leaked") {
         return Verdict::Leak("Arc".into());
@@ -482,6 +488,9 @@ fn run_iteration(prog: &Arc<Program>, rec: &Arc<Mutex<Rec>>) {
     exec_thread(0, prog.clone(), objs, rec.clone());
 }
 
+/// open `get()` / `get_mut()` accesses of one thread on one cell
+type CellG = (Vec<loom::cell::ConstPtr<u64>>, Option<loom::cell::MutPtr<u64>>);
+
 enum RwG {
     R(loom::sync::RwLockReadGuard<'static, u64>),
     W(loom::sync::RwLockWriteGuard<'static, u64>),
@@ -496,6 +505,7 @@ fn exec_thread(t: usize, prog: Arc<Program>, objs: Rc<SObjs>, rec: Arc<Mutex<Rec
     let o: &'static SObjs = unsafe { &*(Rc::as_ptr(&objs)) };
     let mut mg: Vec<Option<loom::sync::MutexGuard<'static, u64>>> = (0..o.mutexes.len()).map(|_| None).collect();
     let mut rg: Vec<Option<RwG>> = (0..o.rwlocks.len()).map(|_| None).collect();
+    let mut cg: Vec<CellG> = (0..o.cells.len()).map(|_| (vec![], None)).collect();
     let mut results: Vec<Res> = Vec::with_capacity(prog.threads[t].len());
     // handles moved into this thread's frame by `ArcHold` (dropped by unwinding on a panic)
     let mut own: Vec<Option<Handle>> = (0..o.handles.len()).map(|_| None).collect();
@@ -504,7 +514,7 @@ fn exec_thread(t: usize, prog: Arc<Program>, objs: Rc<SObjs>, rec: Arc<Mutex<Rec
         let r = if op.g.map(|g| results.get(g.idx) != Some(&g.res)).unwrap_or(false) {
             Res::Skip
         } else {
-            exec_held(t, &op.k, &prog, &objs, o, &rec, &mut mg, &mut rg, &mut own)
+            exec_held(t, &op.k, &prog, &objs, o, &rec, &mut mg, &mut rg, &mut cg, &mut own)
         };
         results.push(r);
         let mut rc = rec.lock().unwrap();
@@ -512,6 +522,7 @@ fn exec_thread(t: usize, prog: Arc<Program>, objs: Rc<SObjs>, rec: Arc<Mutex<Rec
         rc.history.push((t as u8, i as u8, r));
     }
     // release in a fixed order (guards first)
+    drop(cg);
     drop(mg);
     drop(rg);
     drop(own);
@@ -529,6 +540,7 @@ fn exec_held(
     rec: &Arc<Mutex<Rec>>,
     mg: &mut [Option<loom::sync::MutexGuard<'static, u64>>],
     rg: &mut [Option<RwG>],
+    cg: &mut [CellG],
     own: &mut [Option<Handle>],
 ) -> Res {
     if let K::ArcHold { h } = *k {
@@ -544,7 +556,7 @@ fn exec_held(
     if let Some(h) = held {
         *o.handles[h].borrow_mut() = own[h].take();
     }
-    let r = exec_op(t, k, prog, objs, o, rec, mg, rg);
+    let r = exec_op(t, k, prog, objs, o, rec, mg, rg, cg);
     if let Some(h) = held {
         own[h] = o.handles[h].borrow_mut().take();
     }
@@ -561,6 +573,7 @@ fn exec_op(
     rec: &Arc<Mutex<Rec>>,
     mg: &mut [Option<loom::sync::MutexGuard<'static, u64>>],
     rg: &mut [Option<RwG>],
+    cg: &mut [CellG],
 ) -> Res {
     match *k {
         K::Load { a, mo } => Res::V(o.atomics[a].load(mo.std()) as u64),
@@ -601,6 +614,22 @@ fn exec_op(
         }
         K::CellWrite { c } => {
             o.cells[c].with_mut(|p| unsafe { *p += 1 });
+            Res::U
+        }
+        K::CellBegin { c, w: false } => {
+            cg[c].0.push(o.cells[c].get());
+            Res::U
+        }
+        K::CellBegin { c, w: true } => {
+            cg[c].1 = Some(o.cells[c].get_mut());
+            Res::U
+        }
+        K::CellEnd { c, w: false } => {
+            drop(cg[c].0.pop().expect("end without get"));
+            Res::U
+        }
+        K::CellEnd { c, w: true } => {
+            drop(cg[c].1.take().expect("end without get_mut"));
             Res::U
         }
         K::Lock { m } => {
